@@ -26,7 +26,28 @@ PROFILE = S.profile(renames=0.05, dups=0.0, attrs=0.1, orders=["identity", "reve
 
 def fixed_cases(tier):
     # run-count matrix: exactly k runs for k around every power of two up to 300
-    return [{"spec": spec, "cfg": S.simple_config(["MIN", "MAX", "next", "next_back", "try_from"]), "seed": 0} for spec in C.run_count_specs()]
+    out = [{"spec": spec, "cfg": S.simple_config(["MIN", "MAX", "next", "next_back", "try_from"]), "seed": 0} for spec in C.run_count_specs()]
+    # limits matrix: many enums of one probe share identifier, repr and variant identifiers and differ only in their values
+    out += [{"limits_matrix": r} for r in ("i8", "u8", "i16", "u32", "i64", "u64", "i128", "usize")]
+    return out
+
+
+def run_limits(case):
+    from . import C01
+    out = J.Outcome()
+    modules, models, _cfg = C01.limits_modules(case["limits_matrix"])
+    cfg = S.simple_config(["MIN", "MAX", "next", "next_back"])
+    modules = [(sp, cfg, ctx) for (sp, _c, ctx) in modules]
+    sc = E.Script()
+    for k, m in enumerate(models):
+        C.sc_minmax(sc, k, m, cfg)
+        C.sc_next(sc, k, m, cfg, list(range(m.n)))
+    J.run_script(out, modules, sc)
+    out.count("limits_matrix_enums", len(modules))
+    out.nontrivial = True
+    out.fingerprint = J.fp("limits_matrix", case["limits_matrix"])
+    out.sample = {"limits_matrix": case["limits_matrix"], "enums": len(modules)}
+    return out
 
 
 @st.composite
@@ -37,6 +58,8 @@ def cases(draw, tier="quick"):
 
 
 def run_case(case):
+    if "limits_matrix" in case:
+        return run_limits(case)
     out = J.Outcome()
     spec, cfg = case["spec"], case["cfg"]
     m = M.RefEnum(spec)
